@@ -209,7 +209,8 @@ func linearComplexity(a []bool, M int) int {
 
 	B_ = make([]int, M)
 	C = make([]int, M)
-	P = make([]int, M)
+	// x^(N-m)*B(x) 的次数可达 M（例如 0...01 的块，线性复杂度为 M），因此需要 M+1 个系数
+	P = make([]int, M+1)
 	T = make([]int, M)
 
 	for i := 0; i < M; i++ {
